@@ -551,3 +551,71 @@ class StartServiceTask(FnSpec):
 def register2(reg):
     reg.add(FinalizeServiceTask)
     reg.add(StartServiceTask)
+
+
+class FactoryRun(FnSpec):
+    """C09: TaskFactory._run (the factory's service task): binds the factory to the context current in the service task, opens the
+    factory's task group, reports started() only then, and leaves the group - i.e. waits for every background task (A-TG2) - only
+    after the finished event was set (the teardown action of the service task)."""
+    qual = "_concurrent.TaskFactory._run"
+    properties = ("C09",)
+    param_types = {"task_status": LIB("TaskStatus")}
+    modifies = "rely"
+    suspends = True
+    may_raise = True
+
+    def requires(self, F):
+        return private_handle_set(F) + [("a-factory-is-not-a-context", z3.Not(is_ctx(F.old, F.addr("self"))))]
+
+    def local_ensures(self, F):
+        tr = F.new_st.trace
+        f = F.addr("self")
+        starts = [i for i, e in enumerate(tr) if e[0] == "lib" and "started" in str(e[1])]
+        waits = [i for i, e in enumerate(tr) if e[0] == "suspend" and "await-event" in str(e[1])]
+        exits = [i for i, e in enumerate(tr) if e[0] == "suspend" and "task-group-exit" in str(e[1])]
+        return [("waits-for-the-finished-event-before-leaving-the-group",
+                 z3.BoolVal(len(waits) == 1 and len(exits) >= 1 and waits[0] < exits[0])),
+                ("returns-only-after-the-finished-event-was-set", ev_is_set(F.new, Val.a(F.old.fld("_finished_event", f))))]
+
+
+class StartBackgroundTaskFactory(FnSpec):
+    """C09: Context.start_background_task_factory: a new factory with the given exception handler, hosted by exactly one service task of
+    this context running factory._run, whose teardown action is factory._finished_event.set (teardown signals and then waits: C08)."""
+    qual = "_context.Context.start_background_task_factory"
+    properties = ("C09",)
+    param_types = {"exception_handler": ANY}
+    modifies = "rely"
+    suspends = True
+    may_raise = True
+
+    def requires(self, F):
+        return [("initialised-context", is_ctx(F.old, F.addr("self")))]
+
+    def _clauses(self, F, normal):
+        tr = F.new_st.trace
+        calls = [e for e in tr if e[0] == "spec_call" and e[1] == "_context.Context.start_service_task"]
+        news = [e for e in tr if e[0] == "new" and e[1] == "TaskFactory"]
+        out = [("one-factory-one-service-task", z3.BoolVal(len(news) == 1 and len(calls) == 1))]
+        if len(news) == 1 and len(calls) == 1:
+            fa = news[0][2]
+            a = calls[0][2]
+            H = calls[0][3]
+            out.append(("service-task-of-this-context-runs-the-factory",
+                        z3.And(a["self"].t == F.t("self"), a["func"].t == Val.bm(vref(fa), z3.IntVal(METHS.id("_run"))))))
+            out.append(("teardown-action-sets-the-factory-finished-event",
+                        a["teardown_action"].t == Val.bm(H.fld("_finished_event", fa), z3.IntVal(METHS.id("set")))))
+            out.append(("factory-gets-the-exception-handler", H.fld("exception_handler", fa) == F.t("exception_handler")))
+            if normal:
+                out.append(("returns-the-factory", F.result.t == vref(fa)))
+        return out
+
+    def local_ensures(self, F):
+        return self._clauses(F, True)
+
+    def local_raises(self, F):
+        return self._clauses(F, False)
+
+
+def register3(reg):
+    reg.add(FactoryRun)
+    reg.add(StartBackgroundTaskFactory)
